@@ -105,7 +105,7 @@ func cmdFunc(args []string) {
 	dischargeAll(all, *flagTimeout, *flagWorkers)
 	if *flagVerbose {
 		for _, o := range all {
-			if ps := splitParts(o); ps != nil && o.TimeMS > 3000 {
+			if ps := splitParts(o, true); ps != nil && o.TimeMS > 3000 {
 				// re-run parts for timing diagnosis
 				dischargeUnits(ps, *flagTimeout, *flagWorkers)
 				for _, p := range ps {
